@@ -27,13 +27,18 @@ func init() {
 				return
 			}
 			if f := r.Need(p, "pkg/durablequeue", "segment.append"); f != nil {
-				g := f.Graph()
+				// evaluated with same-package helpers spliced in (helper extraction must not matter)
+				g := f.Inline(dqAnchors).G
 				raises := g.Select(g.Assigning(maxF))
 				writes := g.Select(g.Calling(call("pkg/durablequeue.segment.writeBytes")))
 				if r.Check(len(raises) >= 1 && len(writes) >= 1, rule, f.String(), "raise:absent", f.Pos(), "append raises the record bound for an oversize record") {
-					// the raise is not after the write
-					after := g.Reach(core.After(writes[0], nil), nil, nil)
-					r.Check(!after[raises[0]], rule, f.String(), "raise-after-write", g.Line(raises[0]), "the bound is raised before the record is written")
+					// no raise is after a write
+					for _, w := range writes {
+						after := g.Reach(core.After(w, nil), nil, nil)
+						for _, ra := range raises {
+							r.Check(!after[ra], rule, f.String(), "raise-after-write", g.Line(ra), "the bound is raised before the record is written")
+						}
+					}
 				}
 			}
 			if f := r.Need(p, "pkg/durablequeue", "newSegment"); f != nil {
